@@ -745,6 +745,97 @@ RULES = {
 }
 
 
+# ------------------------------------------------------------------ memoised mutable results
+_FRESH_WRAPPERS = {"set", "list", "dict", "sorted", "frozenset", "tuple", "copy", "deepcopy"}
+_MUT_METHODS = {"add", "append", "update", "extend", "insert", "remove", "discard", "pop", "clear", "sort", "reverse", "setdefault", "popitem"}
+
+
+def _returns_mutable(f: FunctionInfo) -> Optional[str]:
+    for r in walk_no_nested(f.node):
+        if isinstance(r, ast.Return) and r.value is not None:
+            v = r.value
+            if isinstance(v, (ast.Set, ast.List, ast.Dict, ast.SetComp, ast.ListComp, ast.DictComp)):
+                return src(v)
+            if isinstance(v, ast.Call) and isinstance(v.func, ast.Name) and v.func.id in ("set", "list", "dict", "defaultdict"):
+                return src(v)
+            if isinstance(v, ast.Name):
+                defs = Defs(f.node, None)
+                vals = [x for x in defs.defs.get(v.id, []) if isinstance(x, ast.expr)]
+                if vals and all(isinstance(x, (ast.Set, ast.List, ast.Dict, ast.SetComp, ast.ListComp, ast.DictComp)) or
+                                (isinstance(x, ast.Call) and isinstance(x.func, ast.Name) and x.func.id in ("set", "list", "dict")) for x in vals[:1]):
+                    return src(vals[0])
+    return None
+
+
+def rule_lru_mutable(repo: Repo) -> List[Ob]:
+    """A memoised function that hands out a mutable container hands out the *same* object on every hit.  If that object can
+    reach a caller that writes into it, one analysis changes what the next one is told.  Forwarders (`return cached(..)`)
+    are followed by name, including through method dispatch."""
+    obs = []
+    cached = [f for f in repo.functions if _is_cached(f)]
+    sources: Dict[str, Tuple[FunctionInfo, str]] = {}
+    for f in cached:
+        mut = _returns_mutable(f)
+        if mut is not None:
+            sources[f.name] = (f, mut)
+    # forwarders: functions whose return value is (an alias of) a call to a source, without a copying wrapper
+    carriers: Dict[str, str] = {n: n for n in sources}
+    changed = True
+    while changed:
+        changed = False
+        for g in repo.functions:
+            if g.name in carriers or g.relpath.startswith(("tests/", "plots/")):
+                continue
+            for r in walk_no_nested(g.node):
+                if isinstance(r, ast.Return) and isinstance(r.value, ast.Call) and call_name(r.value) in carriers:
+                    carriers[g.name] = carriers[call_name(r.value)]
+                    changed = True
+                    break
+    for name, (f, mut) in sorted(sources.items()):
+        key = f"{f.relpath}::{f.qualname}::lru_cache::mutable-result"
+        offenders = []
+        names = {c for c, s0 in carriers.items() if s0 == name}
+        for g in repo.functions:
+            if g.relpath.startswith(("tests/", "plots/")):
+                continue
+            gdefs = None
+            for st in walk_no_nested(g.node):
+                if isinstance(st, ast.Assign) and isinstance(st.value, ast.Call) and call_name(st.value) in names and len(st.targets) == 1 and isinstance(st.targets[0], ast.Name):
+                    var = st.targets[0].id
+                    for x in walk_no_nested(g.node):
+                        if isinstance(x, ast.Call) and isinstance(x.func, ast.Attribute) and x.func.attr in _MUT_METHODS and isinstance(x.func.value, ast.Name) and x.func.value.id == var:
+                            offenders.append(f"{g.relpath}:{x.lineno} {g.qualname}: {src(x)[:40]}")
+                        if isinstance(x, ast.Subscript) and isinstance(x.ctx, (ast.Store, ast.Del)) and isinstance(x.value, ast.Name) and x.value.id == var:
+                            offenders.append(f"{g.relpath}:{x.lineno} {g.qualname}: {src(x)[:40]}")
+                        if isinstance(x, ast.AugAssign) and isinstance(x.target, ast.Name) and x.target.id == var and isinstance(x.op, (ast.BitOr, ast.BitAnd, ast.Sub, ast.Add)):
+                            offenders.append(f"{g.relpath}:{x.lineno} {g.qualname}: {src(x)[:40]}")
+        ok = not offenders
+        obs.append(Ob("G3-lru-mutable", key, f.relpath, f.node.lineno, f.qualname, ok,
+                      f"memoised function returns the mutable `{mut[:40]}`; no caller (through {sorted(names)}) writes into the shared object" if ok else
+                      f"memoised function returns the mutable `{mut[:40]}`, the one cached object reaches {offenders[0]} which writes into it: "
+                      "the first analysis changes what every later call in the process is given"))
+    if not sources:
+        obs.append(Ob("G3-lru-mutable", "repo::lru_cache::mutable-result", "", 0, "", True, f"none of the {len(cached)} memoised functions returns a mutable container", trivial=True))
+    return obs
+
+
+def mut_lru_mutable(repo: Repo) -> List[Mutant]:
+    m = repo.module("program/distribution/categorical.py")
+    text = ast.unparse(m.tree)
+    old = "return {sympify(v) for v in range(len(self.probabilities))}"
+    if old not in text:
+        return []
+    new = text.replace(old, "return _index_support(len(self.probabilities))")
+    new = new.replace("class Categorical(", "from functools import lru_cache\n\n\n@lru_cache(maxsize=None)\ndef _index_support(size):\n    return {sympify(v) for v in range(size)}\n\n\nclass Categorical(", 1)
+    out = [Mutant("cached-support-set-shared", {"program/distribution/categorical.py": new}, "fire", "_index_support::lru_cache::mutable-result", control=True)]
+    new2 = new.replace("return _index_support(len(self.probabilities))", "return set(_index_support(len(self.probabilities)))")
+    out.append(Mutant("benign-cached-support-copied", {"program/distribution/categorical.py": new2}, "silent"))
+    return out
+
+
+RULES["LRUMUT"] = Rule("G3-lru-mutable", rule_lru_mutable, 1, "no memoised function hands a mutable container to a caller that writes into it", mut_lru_mutable)
+
+
 # ------------------------------------------------------------------ set iteration order (hash seed)
 SET_ATTRS = {"free_symbols", "variables", "symbols", "original_variables", "effective_variables", "defective_variables",
              "program_variables", "artificial_variables", "gen_sol_unknowns_set", "dep_vars"}
